@@ -802,6 +802,11 @@ def _transfer_block(body, b, st, var):
         v = UNKNOWN
         if rv["k"] == "use":
             v = _val(st, body, rv["op"])
+            k0 = op_const(rv["op"])
+            if k0 is not None and k0.get("str") == "" and str(k0.get("ty", "")).startswith("&"):
+                # `return ""` for "nothing left": the empty string is a (strictly shorter, or the loop has ended) suffix
+                # of everything - a search in it finds nothing
+                v = STRICT
         elif rv["k"] == "ref":
             rp = P(rv["place"])
             v = st.get(rp[0], UNKNOWN) if not [p for p in rp[1] if p != "*"] else st.get((rp[0], tuple(p for p in rp[1] if p != "*")), UNKNOWN)
